@@ -278,6 +278,35 @@ def numeric(ctx, rng):
                 out.append((f"conv:Dense{mode.capitalize()}:{'odd' if ns % 2 else 'even'}-padded",
                             f"convolve(random [3,{nsx}], random [{nsw}], '{mode}') differs from direct convolution "
                             f"(rel. error {e}, padded size {ns})", {"kind": "dense", "nsx": nsx, "nsw": nsw, "mode": mode}))
+    # "arbitrary contents": the element types of signal and kernel are independent (raw int16 samples or a boolean mask smoothed by a
+    # fractional window, an integer kernel on a float trace): the result is the direct convolution of the values
+    kinds = [("int16", "float64"), ("int32", "float64"), ("int64", "float32"), ("bool", "float64"), ("float64", "int16"),
+             ("float32", "float64"), ("float64", "float32"), ("uint8", "float64"), ("float64", "bool")]
+    for k, (dx, dw) in enumerate(kinds):
+        for nsx, nsw in [(37, 8), (200, 43), (81 - 9, 9), (500, 25)][k % 2::2] + [(int(rng.integers(2, 400)), int(rng.integers(1, 60)))]:
+            def draw(dt, n, shape):
+                if dt == "bool":
+                    return rng.random(shape) < 0.3
+                if dt.startswith(("int", "uint")):
+                    return rng.integers(0 if dt.startswith("u") else -300, 300, shape).astype(dt)
+                return (rng.standard_normal(shape) * (1 if n > 1 else 0.37)).astype(dt)
+            x, w = draw(dx, nsx, (2, nsx)), draw(dw, nsw, nsw)
+            if not np.any(w):
+                w[0] = 1
+            ctx.count(2)
+            for mode in ("full", "same"):
+                try:
+                    c = np.asarray(f.convolve(x, w, mode=mode))
+                    ref = np.stack([scipy.signal.convolve(r.astype(np.float64), w.astype(np.float64), mode=mode, method="direct") for r in x])
+                    if mode == "full" and c.shape[-1] == nsx + nsw:
+                        ref = np.concatenate([ref, np.zeros((2, 1))], axis=-1)
+                    e = rel(c, ref)
+                except Exception as ex:
+                    e = np.inf
+                if not e <= (1e-4 if "float32" in (dx, dw) else 1e-9):
+                    out.append((f"conv:Dense{mode.capitalize()}:dtypes",
+                                f"convolve({dx} [2,{nsx}], {dw} [{nsw}], '{mode}') differs from the direct convolution of the values "
+                                f"(rel. error {e})", {"kind": "dense", "nsx": nsx, "nsw": nsw, "mode": mode}))
     # expand(reduce(fft(real))) = fft(real), reduce(expand(half)) = half, all axes of 1-3-D arrays
     shapes = [(n,) for n in list(range(1, 40)) + [81, 243, 256, 729]] + [(n, 3) for n in (1, 2, 3, 8, 9, 27)] + \
              [(2, n) for n in (1, 2, 5, 6, 27, 28)] + [(2, n, 3) for n in (1, 4, 9, 12)] + [(n, 2, 2) for n in (3, 4, 81)] + \
